@@ -133,6 +133,7 @@ def run(run, tier):
     import EoN.simulation as sim
     rng = run.rng
     props = C.check_props('C13')
+    C.extra_props(run, 'C13', props, ['C13x'])
     ok, log = C.build_driver(L.COMP)
     if not ok:
         run.violation('C13/build', 'extracted model does not build: ' + log[-500:], {'log': log[-3000:]}, no_input=True)
